@@ -33,7 +33,8 @@ def strategy(draw, tier="quick"):
     n = draw(st.integers(1, 10))
     evs = []
     for _ in range(n):
-        evs.append({"us": draw(gen.instants()), "off": draw(gen.offsets()), "dur_us": draw(gen.durations_us()), "data": draw(gen.json_data(8))})
+        us, off = draw(gen.stamps())
+        evs.append({"us": us, "off": off, "dur_us": draw(gen.durations_us()), "data": draw(gen.json_data(8))})
     return {
         "backend": draw(st.sampled_from(stores.BACKENDS)),
         "events": evs,
